@@ -24,12 +24,18 @@ PYTHON_SEMANTICS = [
 
 
 def load_known():
-    fn = os.path.join(HERE, 'known_findings.json')
-    if not os.path.exists(fn):
-        return {}
-    with open(fn) as f:
-        data = json.load(f)
-    return {e['id']: e for e in data.get('findings', [])}
+    """known_findings.json plus known/*.json (one file per property), all committed, never written at run time"""
+    import glob
+    out = {}
+    files = [os.path.join(HERE, 'known_findings.json')] + sorted(glob.glob(os.path.join(HERE, 'known', '*.json')))
+    for fn in files:
+        if not os.path.exists(fn):
+            continue
+        with open(fn) as f:
+            data = json.load(f)
+        for e in data.get('findings', []):
+            out[e['id']] = e
+    return out
 
 
 class Ctx:
